@@ -69,6 +69,8 @@ type spec struct {
 	Opaque  []string     // "GoType=LeanName": types whose values are only passed on; each is a Lean type parameter
 	Methods []string     // "LeanName.Method=[mut ]func(..) R": abstract methods of opaque types (mut: returns (R, new value))
 	FloatAbs string      // float32 is this Lean type parameter with a decidable `<` (only < and > are translated)
+	FloatLE  bool        // … and a decidable `≤` (<= and >= are translated too)
+	CapVars  []string    // "v=c": cap(v) of the slice variable v is the int variable c; `v = append(v, ..)` updates c
 }
 
 // a fragment: the consecutive statements of one block from the one whose text starts with First to
@@ -77,6 +79,7 @@ type fragSpec struct {
 	First, Last string
 	Params      []string // "name type" in Go syntax
 	Results     []string // names of parameters / variables returned, in order
+	EarlyReturn string   // text of the return statements inside the fragment that mean "the fragment ends here"
 }
 
 var specs = []spec{
@@ -122,7 +125,21 @@ var specs = []spec{
 		Consts: []constSpec{{File: "shard/index/utils.go", Name: "opInsert", As: "opInsert"}, {File: "shard/index/utils.go", Name: "opUpdate", As: "opUpdate"},
 			{File: "shard/index/utils.go", Name: "opDelete", As: "opDelete"}, {File: "shard/index/utils.go", Name: "opSkip", As: "opSkip"}}},
 	distSetSpec("Len"), distSetSpec("AddWithLimit"), distSetSpec("Add"), distSetSpec("AddAlreadyUnique"), distSetSpec("Sort"),
+	flatStepSpec,
 }
+
+// the body of the ForEach callback of flat.IndexFlat.Search after the filter test: the bounded insertion of
+// one point into `res` (cap(res) is the variable res_cap; HybridScore, float arithmetic, is not modelled)
+var flatStepSpec = spec{File: "shard/index/flat/flat.go", Func: "Search", Recv: "IndexFlat", Module: "FlatSearch", Ext: true, Name: "Search_step",
+	FloatAbs: "D", FloatLE: true, CapVars: []string{"res=res_cap"}, Prims: []string{"growCap"},
+	Opaque:  []string{"vectorstore.VectorStorePoint=VPoint", "VectorStorePoint=VPoint"},
+	Methods: []string{"VPoint.Id=func() uint64"},
+	Structs: []structSpec{{File: "shard/vectorstore/vectorstore.go", Name: "PointIdDistFn"},
+		{File: "models/search.go", Name: "SearchResult", Only: []string{"NodeId", "Distance"}, Drop: []string{"HybridScore"}}},
+	Frag: &fragSpec{First: "dist := distFn(point)", Last: "for i := len(res) - 1;", EarlyReturn: "return nil",
+		Params:  []string{"distFn vectorstore.PointIdDistFn", "point vectorstore.VectorStorePoint", "res []models.SearchResult", "res_cap int"},
+		Results: []string{"res", "res_cap"}}}
+
 
 // vamana.DistSet: the point (an interface with Id()) and the visited set (an interface with the mutating
 // CheckAndVisit) are opaque, float32 distances are an abstract type with `<`, cap(ds.items) is a ghost field
